@@ -290,6 +290,66 @@ def dispatch(ctx, rep):
                               sample={'site': i.loc}, key='CMP-1|site|%s' % base_name(f.name))
         rep.instances(n, 1, 'word search sites')
         word_readers(ctx, rep, P, wrappers)
+        comparator_semantics(ctx, rep, P, cfg, seen)
+
+
+def comparator_semantics(ctx, rep, P, cfg, dispatch_map):
+    """CMP-8: each dispatched comparator against the reference matching rule, for all pairs of strings"""
+    from . import strauto as SA
+    rep.rule('CMP-8', 'semantics of the four dispatched comparators for ALL pairs of NUL-terminated strings, by abstract interpretation over a finite string abstraction: bytes are '
+             'abstracted to (class, identity) with classes NUL / ASCII / non-ASCII, pairs of bytes to an order relation chosen once per pair, positions to their layout around '
+             'the cursors (cells ahead of the hindmost cursor run-length abstracted, cells behind forgotten), the character counter saturates above every constant it is compared '
+             'with; abstract states are merged at block entries until the fixpoint. A reference automaton consumes the same cells: with has_accents the non-ASCII bytes of both '
+             'strings are ignored; the result must be 0 iff the strings are then equal or (has_prefix) the key is a prefix of the word at least 4 characters long, and otherwise '
+             'have the sign of the first differing pair (end of string = NUL) under one byte order used throughout; no byte is read past a terminator, nothing is written')
+    for (hp, ha), wname in sorted(dispatch_map.items()):
+        f = P.defined[wname]
+        where = loc_gc(f)
+        results = {}
+        for signed in (True, False):
+            ex = SA.Explorer(P, sat=SA.saturation_bound(P, [wname]), max_states=15000, max_seconds=25)
+            st = SA.State()
+            alpha = SA.alphabet_for(P, [wname], eq=(0,), order=(128,))
+            st.tapes = {'K': SA.Tape('K', alpha), 'E': SA.Tape('E', alpha)}
+            st.mem = {'argA': {'#size': 8, 0: ('p', 'K', 0)}, 'argB': {'#size': 8, 0: ('p', 'E', 0)}}
+            st.mon = SA.CmpMonitor(hp, ha, signed, 4)
+            st.frames = [SA.Frame(f, [('p', 'argA', 0), ('p', 'argB', 0)])]
+            bad = []
+            def on_ret(s_, ret, bad=bad):
+                if ret is None or ret[0] != 'c':
+                    bad.append({'problem': 'result is not a number'}); return
+                r = SA.sval(ret[1], ret[2]); sg = (r > 0) - (r < 0)
+                if s_.mon.verdict is None or sg != s_.mon.verdict:
+                    bad.append({'returned_sign': sg, 'reference': s_.mon.verdict, 'because': s_.mon.why, 'strings_by_class': SA.witness(s_), 'last_choices': s_.path[-6:]})
+            try:
+                ex.run(st, on_ret)
+                results[signed] = ('done', bad, ex)
+            except SA.Found as e:
+                results[signed] = ('found', e, ex)
+            except SA.Imprecise as e:
+                results[signed] = ('imprecise', str(e), ex)
+        cons = '%s (has_prefix=%s, has_accents=%s)' % (base_name(wname), hp, ha)
+        kinds = {k: v[0] for k, v in results.items()}
+        if any(v[0] == 'found' for v in results.values()):
+            e = [v[1] for v in results.values() if v[0] == 'found'][0]
+            rep.fail('%s: %s' % (cons, e.detail), e.loc, '%s: %s' % (base_name(wname), e.kind), detail={'kind': e.kind, 'detail': e.detail}, key='CMP-8|%s|%s' % (base_name(wname), e.kind))
+            continue
+        if all(v[0] == 'imprecise' for v in results.values()) or (any(v[0] == 'imprecise' for v in results.values()) and not any(v[0] == 'done' and not v[1] for v in results.values())):
+            why = [v[1] for v in results.values() if v[0] == 'imprecise'][0]
+            rep.notes.append('CMP-8 not decided for %s: %s' % (cons, why))
+            rep.ok('%s: outside the string abstraction (%s) - not decided, see notes' % (cons, why[:80]))
+            continue
+        good = [k for k, v in results.items() if v[0] == 'done' and not v[1]]
+        if good:
+            ex = results[good[0]][2]
+            rep.check(True, '%s agrees with the reference matching rule on all string pairs (%s byte order; %d abstract states, %d partitions, %d distinct returns)' % (
+                cons, 'signed' if good[0] else 'unsigned', ex.nstates, ex.nforks, ex.nreturns), where, cons,
+                sample={'comparator': base_name(wname), 'has_prefix': hp, 'has_accents': ha, 'abstract_states': ex.nstates, 'returns_checked': ex.nreturns}, key='CMP-8|%s' % base_name(wname))
+        else:
+            done = [(k, v) for k, v in results.items() if v[0] == 'done']
+            k, v = min(done, key=lambda kv: len(kv[1][1]))
+            rep.fail('%s agrees with the reference matching rule on all string pairs' % cons, where, '%s deviates from the matching rule' % base_name(wname),
+                     detail={'byte_order_assumed': 'signed' if k else 'unsigned', 'disagreements': len(v[1]), 'first': v[1][:2]}, key='CMP-8|%s' % base_name(wname))
 
 
 def word_readers(ctx, rep, P, wrappers):
@@ -631,6 +691,127 @@ def cursor_safety(ctx, rep):
         rep.instances(nadv, 3, 'cursor advance / look-ahead sites')
 
 
+def tokeniser_semantics(ctx, rep):
+    """TOK-1: the tokeniser against the reference tokenisation, for all NUL-terminated buffers"""
+    from . import strauto as SA
+    for cfg in (ctx.configs('path') if ctx.tier == 'thorough' else ['NsS']):
+        P = ctx.prog(cfg)
+        if cfg not in rep.configs: rep.configs.append(cfg)
+        rep.rule('TOK-1', 'semantics of str_split for ALL NUL-terminated buffers, by abstract interpretation over the finite string abstraction (byte classes NUL / space / other; '
+                 'layout of positions around the cursor; abstract states merged at block entries until the fixpoint) against a reference automaton: the result is the number of '
+                 'segments between single ASCII spaces with one empty last segment dropped (so a single trailing space is tolerated and every other empty token counts), 17 '
+                 'standing for "more than 16"; words[k] is set, in order, to the first byte of segment k; exactly the separators that end the first 16 segments are overwritten '
+                 'with NUL and no other byte of the buffer is modified; words[16] is never written; no byte is read past the terminator')
+        fs = P.fns('str_split')
+        rep.instances(len(fs), 1, 'tokeniser functions')
+        for f in fs:
+            where = loc_gc(f)
+            args = []; ok = True
+            for prm in f.params:
+                if prm['ty'] == 'i8*' and ('p', 'T', 0) not in args: args.append(('p', 'T', 0))
+                elif prm['ty'] == 'i8**' and ('p', 'words', 0) not in args: args.append(('p', 'words', 0))
+                else: args.append(('u',)); ok = False
+            ex = SA.Explorer(P, sat=SA.saturation_bound(P, [f.name]) + 16, max_states=20000, max_seconds=25)
+            st = SA.State()
+            st.tapes = {'T': SA.Tape('T', SA.alphabet_for(P, [f.name], eq=(0, 32)))}
+            st.mem = {'words': {'#size': 128}}
+            st.mon = SA.TokMonitor(16)
+            st.frames = [SA.Frame(f, args)]
+            bad = []
+            def on_ret(s_, ret, bad=bad):
+                exp = s_.mon.expected()
+                r = SA.sval(ret[1], ret[2]) if ret and ret[0] == 'c' else None
+                n = min(exp, 16) if exp is not None else 0
+                if r != exp: bad.append({'returned': r, 'reference': exp, 'buffer_by_class': SA.witness(s_)['T'], 'last_choices': s_.path[-5:]})
+                elif s_.mon.nstored < n: bad.append({'problem': 'words[%d] not set' % s_.mon.nstored, 'tokens': exp, 'buffer_by_class': SA.witness(s_)['T']})
+                elif s_.mon.nwritten != min(s_.mon.nsep, 16): bad.append({'problem': '%d of the %d separators ending reported tokens were terminated' % (s_.mon.nwritten, min(s_.mon.nsep, 16)), 'buffer_by_class': SA.witness(s_)['T']})
+            cons = base_name(f.name)
+            try:
+                ex.run(st, on_ret)
+            except SA.Found as e:
+                rep.fail('%s: %s' % (cons, e.detail), e.loc if e.loc != '?' else where, '%s: %s' % (cons, e.kind), detail={'kind': e.kind, 'detail': e.detail}, key='TOK-1|%s|%s' % (cons, e.kind)); continue
+            except SA.Imprecise as e:
+                rep.notes.append('TOK-1 not decided for %s: %s' % (cons, e))
+                rep.ok('%s: outside the string abstraction (%s) - not decided, see notes' % (cons, str(e)[:80])); continue
+            rep.check(not bad, '%s agrees with the reference tokenisation on all buffers (%d abstract states, %d distinct returns)' % (cons, ex.nstates, ex.nreturns), where,
+                      '%s deviates from the reference tokenisation' % cons, detail={'disagreements': len(bad), 'first': bad[:2]},
+                      sample={'function': cons, 'abstract_states': ex.nstates, 'returns_checked': ex.nreturns}, key='TOK-1|%s' % cons)
+
+
+def lazy_normaliser_semantics(ctx, rep):
+    """LAZY-1: utf8_nfkd_lazy against its reference behaviour, for all NUL-terminated strings"""
+    from . import strauto as SA
+    for cfg in (ctx.configs('path') if ctx.tier == 'thorough' else ['NsS']):
+        P = ctx.prog(cfg)
+        if cfg not in rep.configs: rep.configs.append(cfg)
+        size = ctx.tables().str_size()
+        rep.rule('LAZY-1', 'semantics of utf8_nfkd_lazy(str, norm) for ALL NUL-terminated strings, by abstract interpretation over the finite string abstraction (byte classes '
+                 'NUL / ASCII / non-ASCII and whatever further constants the code compares bytes with; the copy counter is kept exactly) against a reference automaton: if a '
+                 'non-ASCII byte occurs among the first sizeof(polyseed_str)-1 bytes before the terminator, the injected u8_nfkd is called exactly once with (str, norm) and its '
+                 'result is returned; otherwise bytes 0..L-1 (L = length, capped at sizeof-1) are copied in order to norm[0..L-1], norm[L] = 0 and L is returned; str is not '
+                 'modified, nothing is read past its terminator, nothing is written past norm[sizeof-1]')
+        fs = P.fns('utf8_nfkd_lazy')
+        rep.instances(len(fs), 1, 'copies of utf8_nfkd_lazy')
+        for f in fs:
+            where = loc_gc(f); cons = base_name(f.name)
+            if [p_['ty'] for p_ in f.params] != ['i8*', 'i8*']:
+                rep.notes.append('LAZY-1 not decided for %s: unrecognised signature' % cons); rep.ok('%s: unrecognised signature - not decided' % cons); continue
+            ex = SA.Explorer(P, sat=None, max_states=40000, max_seconds=40)
+            st = SA.State()
+            st.tapes = {'T': SA.Tape('T', SA.alphabet_for(P, [f.name], eq=(0,), order=(128,)))}
+            st.mem = {'norm': {'#size': size}}
+            st.mon = SA.LazyMonitor(size)
+            st.frames = [SA.Frame(f, [('p', 'T', 0), ('p', 'norm', 0)])]
+            bad = []
+            def on_ret(s_, ret, bad=bad):
+                m = s_.mon; w_ = SA.witness(s_)['T'][:120]
+                if m.expect_call:
+                    if not (m.called == 1 and ret == ('sym', 'normaliser.len')):
+                        bad.append({'problem': 'a non-ASCII byte within the first %d bytes: the injected normaliser must be called once and its result returned' % (size - 1), 'calls': m.called, 'returned': str(ret)[:60], 'string_by_class': w_})
+                else:
+                    L = m.len if m.len is not None else size - 1
+                    L = min(L, size - 1)
+                    r = SA.sval(ret[1], ret[2]) if ret and ret[0] == 'c' else None
+                    if m.called or r != L or m.ncopied != L or m.term != L:
+                        bad.append({'problem': 'pure-ASCII input of length %d: copied %d byte(s), terminator at %s, returned %s, normaliser calls %d' % (L, m.ncopied, m.term, r, m.called), 'string_by_class': w_})
+            try:
+                ex.run(st, on_ret)
+            except SA.Found as e:
+                rep.fail('%s: %s' % (cons, e.detail), e.loc if e.loc != '?' else where, '%s: %s' % (cons, e.kind), detail={'kind': e.kind, 'detail': e.detail}, key='LAZY-1|%s|%s' % (cons, e.kind)); continue
+            except SA.Imprecise as e:
+                rep.notes.append('LAZY-1 not decided for %s: %s' % (cons, e))
+                rep.ok('%s: outside the string abstraction (%s) - not decided, see notes' % (cons, str(e)[:80]))
+                _lazy_tested_bytes(P, rep, f, cons); continue
+            _lazy_tested_bytes(P, rep, f, cons)
+            rep.check(not bad, '%s agrees with the reference behaviour on all strings (%d abstract states, %d distinct returns)' % (cons, ex.nstates, ex.nreturns), where,
+                      '%s deviates from "normalise iff non-ASCII, else copy"' % cons, detail={'disagreements': len(bad), 'first': bad[:2]},
+                      sample={'function': f.name, 'abstract_states': ex.nstates, 'returns_checked': ex.nreturns}, key='LAZY-1|%s' % cons)
+
+
+def _lazy_tested_bytes(P, rep, f, cons):
+    """LAZY-2 (structural companion of LAZY-1, also applied when the string abstraction gives up): every input byte the ASCII fast path copies to
+    the output was itself put to the non-ASCII test on the way (same position), so no untested byte can slip past the normaliser"""
+    dom = f.dominators()
+    tests = []
+    for b, blk in enumerate(f.blocks):
+        t = blk[-1]
+        if t.op == 'br' and len(t.ops) == 3:
+            c = cond_class(f, t.ops[0])
+            if c and c[0] == 'nonascii': tests.append((b, pos_key(f, c[1].ops[0])))
+    fam_out = cursor_family(f, 1)
+    for i in f.all_insts():
+        if i.op != 'store': continue
+        l = byte_load(f, i.ops[0])
+        if l is None: continue
+        base = pos_key(f, i.ops[1])[0]
+        root = base[1] if isinstance(base, tuple) and base and base[0] == 'x' else base
+        if root not in fam_out: continue
+        k = pos_key(f, l.ops[0])
+        ok = any(tk == k and tb in dom[i.bb] for tb, tk in tests)
+        rep.check(ok, 'the byte copied to the output at %s is the byte that passed the non-ASCII test (same position)' % i.loc, i.loc,
+                  '%s copies a byte that was not tested for non-ASCII' % cons, detail={'copied_from': str(k), 'tested_positions': [str(t[1]) for t in tests]}, key='LAZY-2|%s|%s' % (cons, i.loc.split(':')[-1]))
+
+
 def conj_terms(g, v):
     return []
 
@@ -670,3 +851,4 @@ def nfkd_before_split(ctx, rep):
                 okp = bool(ph) and all(addr_base(f, p.ops[0])[0] == addr_base(f, s_.ops[1])[0] and f.inst_dominates(s_, p) for p in ph)
                 rep.check(okp, 'the phrase search receives the token array str_split filled', s_.loc, base_name(f.name), key='CMP-2|%s|tokens' % base_name(f.name))
         rep.instances(n, 1, 'tokeniser call sites')
+    tokeniser_semantics(ctx, rep)
